@@ -437,9 +437,9 @@ namespace WS.Lemmas.App
 open WS WS.Model.App
 open WS.Spec.AppTrace (live livePings resourcesBounded)
 
-theorem rj_handleDisconnect (c : Cfg) (s : St) (e : AExn) (rc : Bool) (h : RJ s) :
-    RJ (handleDisconnect c s e rc).1 ∧ (handleDisconnect c s e rc).1.ping = none := by
-  unfold handleDisconnect
+theorem rj_handleDisconnectBody (c : Cfg) (s : St) (e : AExn) (rc : Bool) (h : RJ s) :
+    RJ (handleDisconnectBody c s e rc).1 ∧ (handleDisconnectBody c s e rc).1.ping = none := by
+  unfold handleDisconnectBody
   simp only [gen_dcErr, gen_dcStops, ↓reduceIte]
   have r1 : RJ (stopPing { s with hasErrored := true }) :=
     rj_of s _ h (frame_stopPing _).hdt (fun hk => by rw [(frame_stopPing _).kr] at hk; exact hk)
@@ -484,6 +484,20 @@ open WS.Spec.AppTrace (live livePings resourcesBounded)
 
 /-- for functions that implement `read()`: accounting kept; a falsy return value means the loop condition is off -/
 abbrev ReadRJ (x : St × R Bool) : Prop := RJ x.1 ∧ (x.2 = .ok false → x.1.keepRunning = false)
+
+
+/-- handleDisconnect keeps the resource accounting; when it returns normally with the loop still wanted, the ping thread is
+    gone (either the body ran, which stops it first, or — application closed — teardown ran, and then the loop is off). -/
+theorem rj_handleDisconnect (c : Cfg) (s : St) (e : AExn) (rc : Bool) (h : RJ s) :
+    RJ (handleDisconnect c s e rc).1 ∧
+    ((handleDisconnect c s e rc).2 = .ok () → (handleDisconnect c s e rc).1.keepRunning = true →
+      (handleDisconnect c s e rc).1.ping = none) := by
+  unfold handleDisconnect
+  split
+  · obtain ⟨t1, t2, _⟩ := rj_teardown c s none h
+    refine ⟨t1, fun hok hk => ?_⟩
+    rw [t2 hok] at hk; cases hk
+  · exact ⟨(rj_handleDisconnectBody c s e rc h).1, fun _ _ => (rj_handleDisconnectBody c s e rc h).2⟩
 
 theorem rj_asRead_true (x : St × R Unit) (h : RJ x.1) : ReadRJ (asRead true x) := by
   refine ⟨by simpa using h, fun hr => ?_⟩
@@ -722,7 +736,7 @@ theorem rj_setSock (c : Cfg) (s : St) (rc : Bool) (h : RJ s) (hp : s.ping = none
       RJ (handleDisconnect c s2 e rc).1 ∧
       ((handleDisconnect c s2 e rc).2 = .ok () → (handleDisconnect c s2 e rc).1.keepRunning = true →
         (handleDisconnect c s2 e rc).1.ping = none) := fun s2 e h2 =>
-    ⟨(rj_handleDisconnect c s2 e rc h2).1, fun _ _ => (rj_handleDisconnect c s2 e rc h2).2⟩
+    rj_handleDisconnect c s2 e rc h2
   unfold afterConnect
   cases r with
   | halt => exact ⟨j1, by simp⟩
